@@ -705,7 +705,7 @@ def object_section_worlds(seed, tier):
     """generated domains with valid problems whose object section is written outside the grammar (own random stream)"""
     rng = random.Random(seed * 7919 + 131)
     worlds = []
-    for _ in range(8 if tier == "quick" else 60):
+    for _ in range(5 if tier == "quick" else 40):
         w = gen_domain(rng)
         cases = []
         for _ in range(2):
@@ -1112,7 +1112,7 @@ def hash_seeds(seed, tier):
 def multi_repeat_worlds(seed, tier):
     """worlds with fluents repeating two or three different arguments; generated from their own random stream"""
     rng = random.Random(seed * 7919 + 77)
-    n = 6 if tier == "quick" else 24
+    n = 5 if tier == "quick" else 16
     return [wide_hand_world()] + [multi_repeat_world(rng, tier, enumerate_shape=(i % 3 == 0)) for i in range(n)]
 
 
@@ -1450,6 +1450,7 @@ def run(args):
                      "fixture_problems": sum(len(w["cases"]) for w in worlds if w["source"] == "fixture"),
                      "fixture_problems_shipped": n_fixture_total, "fixture_problems_left_to_thorough_tier": n_fixture_skipped}
     cov["theorem_hypotheses_checked"] = hypotheses_report(results)
+    cov["python_hash_seeds"] = {"default": args.seed % 7, "several_repeats_worlds": sorted({w["hashseed"] for w in worlds if "hashseed" in w})}
     cov["exhaustive"] = False
     cov["rule"] = ("problems generated over pddlgen domains widened with binary/ternary functions (object list typed one by one / "
                    "grouped / trailing untyped / (:private ...) / mixed; arguments from objects of subtypes and domain constants; "
@@ -1474,6 +1475,15 @@ def run(args):
                    "(quick: files <= 2100 bytes). Every fluent of every problem and every fluent leaf of a numeric goal is dumped through "
                    "state_representation (signature + repeating_variables); all problems of a domain are parsed in one process against one "
                    "Domain object, whose functions must present themselves the same way afterwards. "
+                   "Initial fluents that repeat TWO OR THREE different arguments (functions of arity 4-6 added to generated domains, and a hand "
+                   "domain): written the way the library prints them (inside safe_repeats), in arbitrary interleavings, and every arrangement "
+                   "of one shape (2x2, 2x2x1, 3x2, 2x2x2 ...), each problem parsed under several PYTHONHASHSEEDs (quick 3, thorough 6: the order of "
+                   "repeating_variables must be the order of first occurrence under every seed). Five problems written one after the other to ONE "
+                   "file path (long, short, same size with other content, empty sections, long again). Object sections outside the grammar of the "
+                   "spec: a name declared again (same type, real type last, other type last, inside one group, inside / before a nested list, with an "
+                   "undeclared superseded type), lists nested to depth 3 with any head (a group inside a list, names pending across a list, "
+                   "trailing untyped names inside a list, empty lists), a dash that closes no name, a dash without a type - judged by the normal "
+                   "form of the section (Spec/ProblemObjects.v) AND by an expectation computed independently in the generator. "
                    "Non-trivial: >= 2 init/goal items or any corruption; distinct by input hash.")
     cov["samples"] = [{"kind": c["input"]["world"]["cases"][0]["kind"],
                        "text": (c["input"]["world"]["cases"][0].get("text") or c["input"]["world"]["cases"][0].get("path"))[:400]}
